@@ -19,7 +19,7 @@ CHECKS = {
          "Held on the executions explored: Rsi and MyRSI x N grid (plus 100, 257, 300, 520) x 12 input classes, one f64 trial in six in subnormal units.",
          "no claim where MyRSI has nothing to hold; f64 steps with G+L inside the rounding envelope are left to C07/C16"),
  "C06": ("reference-model monitor: Pearson / Kendall tau-a / centre-of-gravity of the current window from the recorded history in exact arithmetic; negation and order-only (strictly increasing maps) relations",
-         "Held on the executions explored: CTI, NET, CoG x N 3..64 x 12 input classes + partially shuffled streams, one f64 trial in six in units of 2^-70 / 2^-300.",
+         "Held on the executions explored: CTI, NET, CoG x N 3..64 x 12 input classes + partially shuffled streams, one f64 trial in six in units of 2^-70 / 2^-300; CTI +-1 (1e-9) on exactly linear windows at a level of 2^30 / 2^40 in streams that began near zero.",
          "CTI at the exact scalar compared to 1e-12 (irrational root); f64 steps inside the cancellation envelope left to C07/C16"),
  "C07": ("range automaton on every Some output (f64 and f32; 16 ulps of the bound), Min/Max sandwich with real Min/Max views, Drawdown monotonicity; violations classified by the exact oracle on the failing window (predicates of the known findings)",
          "Held on the executions explored except for five recorded known findings (PFE's defining formula, Vsct residue, Sma/Alma running-sum residue, CoG's N-ulp excess): 16 documented ranges + sandwich + Drawdown x N 2..64 (+257) x 14 adversarial input classes, a quarter rescaled over 2^60, a third off the dyadic grid, streams to 1e5.",
